@@ -47,6 +47,7 @@ func runC04(c *Ctx) {
 	fn, an := r.Fn, r.An
 	info := r.FI.Pkg.TypesInfo
 	c.Floor("C04.1-create-sites", len(r.Creates), 1)
+	c.slotSetIsReadOnly(r)
 	c.everyObservedPodIsPlaced(r, "C04.5-every-observed-pod-is-placed")
 	// the desired set the reconcile works on is the helper's: its walk over the delete slots (C01.3) decides
 	// which ordinals are wanted and which are condemned
@@ -352,4 +353,67 @@ func (c *Ctx) everyVacancyIsFilled(r *Reconcile, rule string) {
 		c.Check(!reached, rule, name+": every empty desired cell", store.Pos(), "an iteration for a vacant desired ordinal does not end without the store",
 			"an iteration for a vacant desired ordinal can end without a pod object being stored: nothing is created there")
 	}
+}
+
+// slotSetIsReadOnly: the effective slot set the helper returned says, for the whole pass, which ordinals are not to be
+// filled: nothing in the reconcile function takes an element out of it or puts one in -- neither through the variable
+// nor through a copy of the variable (a sets.Int32 is a map: the copy is the same set).
+func (c *Ctx) slotSetIsReadOnly(r *Reconcile) {
+	const rule = "C04.2-slot-set-is-read-only"
+	info := r.FI.Pkg.TypesInfo
+	alias := map[types.Object]bool{info.ObjectOf(r.Slots): true}
+	for changed := true; changed; {
+		changed = false
+		for _, bd := range r.Fn.Bodies() {
+			ast.Inspect(bd, func(x ast.Node) bool {
+				as, ok := x.(*ast.AssignStmt)
+				if !ok || len(as.Lhs) != len(as.Rhs) {
+					return true
+				}
+				for i, l := range as.Lhs {
+					lid, ok := l.(*ast.Ident)
+					rid, ok2 := ast.Unparen(as.Rhs[i]).(*ast.Ident)
+					if ok && ok2 && alias[info.ObjectOf(rid)] && info.ObjectOf(lid) != nil && !alias[info.ObjectOf(lid)] {
+						alias[info.ObjectOf(lid)] = true
+						changed = true
+					}
+				}
+				return true
+			})
+		}
+	}
+	readOnly := map[string]bool{"Has": true, "HasAll": true, "HasAny": true, "Len": true, "List": true, "UnsortedList": true, "Equal": true, "IsSuperset": true,
+		"Difference": true, "Union": true, "Intersection": true}
+	n := 0
+	for _, bd := range r.Fn.Bodies() {
+		ast.Inspect(bd, func(x ast.Node) bool {
+			switch y := x.(type) {
+			case *ast.CallExpr:
+				if sel, ok := y.Fun.(*ast.SelectorExpr); ok {
+					if id, ok := ast.Unparen(sel.X).(*ast.Ident); ok && alias[info.ObjectOf(id)] {
+						n++
+						c.Check(readOnly[sel.Sel.Name], rule, fmt.Sprintf("%s: %s.%s(…)", r.FI.Obj.Name(), id.Name, sel.Sel.Name), y.Pos(), "a read",
+							"the effective slot set is changed in the middle of the pass (through "+id.Name+"): an ordinal the annotation lists is then filled, or one it does not list is left empty")
+					}
+				}
+				if id, ok := y.Fun.(*ast.Ident); ok && id.Name == "delete" && len(y.Args) == 2 {
+					if a, ok := ast.Unparen(y.Args[0]).(*ast.Ident); ok && alias[info.ObjectOf(a)] {
+						n++
+						c.Bad(rule, fmt.Sprintf("%s: delete(%s, …)", r.FI.Obj.Name(), a.Name), y.Pos(), "an element is taken out of the effective slot set in the middle of the pass")
+					}
+				}
+			case *ast.AssignStmt:
+				for _, l := range y.Lhs {
+					if ix, ok := ast.Unparen(l).(*ast.IndexExpr); ok {
+						if a, ok := ast.Unparen(ix.X).(*ast.Ident); ok && alias[info.ObjectOf(a)] {
+							n++
+							c.Bad(rule, fmt.Sprintf("%s: %s[…] = …", r.FI.Obj.Name(), a.Name), y.Pos(), "an element is put into the effective slot set in the middle of the pass")
+						}
+					}
+				}
+			}
+			return true
+		})
+	}
+	c.Floor(rule+"-uses", n, 2)
 }
